@@ -447,8 +447,10 @@ def gen_stream(rng, pbad=0.05, pover=0.02):
             lines.insert(rng.randrange(len(lines) + 1), dict(k="R"))
             if rng.random() < 0.3:
                 lines.insert(rng.randrange(len(lines) + 1), dict(k="R"))
-        if di > 0 and (lines or rng.random() < 0.4):
+        ended = False
+        if di > 0 and (lines or rng.random() < 0.5):
             b.emit("...\n")
+            ended = True
         for d in lines:
             d["off"] = b.n
             if d["k"] == "Y":
@@ -459,7 +461,9 @@ def gen_stream(rng, pbad=0.05, pover=0.02):
                 b.emit("%%TAG %s %s%s\n" % (d["h"], d["raw"], rng.choice(["", "", " ", " # c"])))
             dirs.append(d)
         declared = [d["h"] for d in dirs if d["k"] == "T"]
-        implicit = di == 0 and not lines and rng.random() < 0.3
+        # a bare document (no directives, no '---'): the first one, or any later one behind a '...' line — the table of
+        # the document before it must not be in force there unless keep_tags is set
+        implicit = not lines and (di == 0 or ended) and rng.random() < (0.3 if di == 0 else 0.6)
         nodes = []
         shape = rng.choice(SHAPES)
 
